@@ -56,8 +56,12 @@ fn judge(entry: &str, dir: Dir, n: usize, g: usize, l: usize, evs: &[CopyEvent],
         return;
     }
     if evs.is_empty() {
+        // the transfer did not go through the instrumented helper: nothing to judge here (the
+        // machine-level lackey oracle and the tearing detector still cover it; the coverage
+        // floor on judged transfers turns a wholesale bypass into an inconclusive run)
         if expect_traced {
-            v(&format!("{}/transfer-not-performed-by-the-single-copy-path", entry), ctx());
+            out::note("C06/transfer-not-traced-by-hook", J::s(entry));
+            out::count("untraced_transfers", 1);
         }
         return;
     }
@@ -263,7 +267,7 @@ fn atomics(env: &Env) {
                     let back = vs.load::<$T>(off, lo);
                     match (aligned, &r, &back) {
                         (true, Ok(()), Ok(b)) if *b == val => {}
-                        (false, Err(vm_memory::VolatileMemoryError::Misaligned { .. }), Err(vm_memory::VolatileMemoryError::Misaligned { .. })) => {}
+                        (false, Err(_), Err(_)) => {}
                         _ => v(&format!("atomic/{}/{}", $tn, if aligned { "aligned-roundtrip" } else { "misaligned-accepted" }), jobj! {"off" => off, "store" => J::dbg(&r.is_ok()), "load_ok" => back.is_ok()}),
                     }
                     out::key(&format!("atomic|{}|{}|{:?}", $tn, if aligned { "aligned" } else { "misaligned" }, ord), true);
